@@ -25,11 +25,12 @@ CI_CFG = {
     'types_are_records': {r'std::iterator<.*>': True},
     'record_ctypes': ['empty_base'],
     'record_copy': {'child_iterator': 'child_iterator_copy'},
-    'types_prelude': '#include "dw_model.h"\n',
-    'bodies_prelude': '#define C05_CHILD 1\n#include "dw_model2.h"\n',
+    'types_prelude': '#define DW_MODEL_ATTRS 1\n#include "dw_model.h"\n',
+    'bodies_prelude': '#define C05_CHILD 1\n#define DW_MODEL_ATTRS 1\n#include "dw_model2.h"\n',
     'extern': {'__assert_fail': 'verif_assert_fail_libc', 'abort': 'verif_abort',
                r'dwarf_child': 'm_dwarf_child', r'dwarf_siblingof': 'm_dwarf_siblingof', r'dwarf_dieoffset': 'm_dwarf_dieoffset',
-               r'dwarf_haschildren': 'm_dwarf_haschildren', r'throw_libdw.*': 'm_throw_libdw'},
+               r'dwarf_haschildren': 'm_dwarf_haschildren', r'throw_libdw.*': 'm_throw_libdw',
+               r'dwarf_attr_integrate': 'm_dwarf_attr_integrate', r'dwarf_attr': 'm_dwarf_attr', r'dwarf_formref_die': 'm_dwarf_formref_die'},
 }
 CI_ROOTS = ['_ZN14child_iteratorC1E9Dwarf_Die', '_ZN14child_iteratorppEv', '_ZN14child_iteratordeEv', '_ZNK14child_iteratorneERKS_']
 FN = 4
@@ -81,6 +82,9 @@ def jobs(tier):
     A = ['--object-bits', '13']
     return [Job('bounded_child_parent_n%d' % FN, src, 'hb_child_parent', includes=inc, defines=['NN=%d' % FN], kind='bounded', unwind=nf + 4, timeout=600,
                 mem_gb=32, cbmc_args=A, note='child_iterator and parent_cache::find on every forest shape of <= %d DIEs (%d shapes enumerated, offsets symbolic), every DIE' % (FN, nf)),
+            Job('bounded_child_parent_attrs_n3', src, 'hb_child_parent', includes=[os.path.join(OUT, 'f3')] + inc, defines=['NN=3', 'ATTR_SYMBOLIC'], kind='bounded',
+                unwind=len(C02.forests(3)) + 6, timeout=900, mem_gb=32, cbmc_args=A,
+                note='as bounded_child_parent on forests of <= 3 DIEs, with an arbitrary DW_AT_sibling / DW_AT_abstract_origin layer in the libdw model (matters only to code that consults those attributes)'),
             Job('bounded_is_root_n3', [os.path.join(HERE, 'root_harness.c'), os.path.join(OUT, 'rc_bodies.c'), os.path.join(OUT, 'cui_bodies.c')], 'hb_is_root',
                 includes=[os.path.join(OUT, 'f3')] + inc, defines=['NN=3'], kind='bounded', unwind=len(C02.forests(3)) + 6, timeout=900, mem_gb=32, cbmc_args=A,
                 note='root_cache::is_root (?root) with the real cu_iterator: every forest shape of <= 3 DIEs (fixed offsets), every ordered pair of DIEs on one cache'),
